@@ -357,12 +357,12 @@ class Check:
 
     OTHER_CONFIG = {"VERIF_LOGTRACE": "1", "VERIF_VIEW": "0"}
 
-    def second_pass(self, drv, args, out_path, first_events, timeout=1800):
+    def second_pass(self, drv, args, out_path, first_events, timeout=1800, extra_env=None):
         """The generated cases once more under another configuration of things the properties do not mention - the library's
         logger at trace level, every octet string handed over in a buffer of exactly its size (no spare capacity): results do
         not depend on either.  Returns the observations that differ from the first pass (only those need a second
         judgement); counts go to the evidence."""
-        self.run_driver(drv, args, env=dict(self.OTHER_CONFIG), timeout=timeout)
+        self.run_driver(drv, args, env=dict(self.OTHER_CONFIG, **(extra_env or {})), timeout=timeout)
         evs = read_ndjson(out_path)
         seen = set(first_events)
         extra = [e for e in evs if e not in seen]
@@ -388,7 +388,7 @@ class Check:
             if not ok:
                 # drivers run their seeded `record` streams with the library's logger at trace level and everything else at the
                 # default level (ev.Quiet): a mismatch seen there may need that configuration - confirm once more under it
-                self.force_env = dict(self.OTHER_CONFIG)
+                self.force_env = dict(self.OTHER_CONFIG, **getattr(self, "other_env", {}))
                 try:
                     ok = confirm(idx, t)
                 finally:
